@@ -64,6 +64,13 @@ func setExt(w *wsutil.Writer, e string, st *wsflate.MessageState) {
 	case "c1":
 		st.SetCompressed(true)
 		w.SetExtensions(st)
+	case "x1", "x2", "x3":
+		// a send extension of the application's own that marks EVERY frame it is shown (RSV3 / RSV2 / both)
+		bits := e[1] - '0'
+		w.SetExtensions(wsutil.SendExtensionFunc(func(h ws.Header) (ws.Header, error) {
+			h.Rsv |= bits
+			return h, nil
+		}))
 	default:
 		w.SetExtensions()
 	}
@@ -299,6 +306,14 @@ func genC06(tier string, r *rng) {
 			}
 		}
 	}
+	// an application extension that marks every frame: buffered continuation frames and the final one carry its bits too
+	for _, sd := range sides {
+		for _, x := range []string{"x2", "x1", "x3"} {
+			av := availOf(sd, "buf:40")
+			writerSeq(sd, 1, "buf:40", "-", "-", 900, []string{"se:" + x, "w:" + hx(r.bytes(av+3)), "w:" + hx(r.bytes(av)), "ff", "w:" + hx(r.bytes(2)), "fl", "w:" + hx(r.bytes(1)), "fl"})
+			writerSeq(sd, 2, "buf:40", "-", "-", 901, []string{"se:" + x, "wt:" + hx(r.bytes(5)), "w:" + hx(r.bytes(3)), "ff", "fl", "rs:" + sd + ":1", "w:" + hx(r.bytes(3)), "fl"})
+		}
+	}
 	// constructors
 	for _, sd := range sides {
 		for _, ctor := range []string{"new", "size:0", "size:1", "size:125", "size:126", "size:65535", "size:65536", "bufsize:0", "bufsize:2", "bufsize:3", "bufsize:7", "buf:2", "buf:3", "buf:6", "buf:7", "get:1", "get:100", "get:128", "get:129", "get:5000", "get:65536", "get:70000"} {
@@ -313,6 +328,8 @@ func genC06(tier string, r *rng) {
 		maxLen = 200
 	}
 	exts := []string{"-", "-", "c0", "c1"}
+	// (x1/x2/x3 — an application extension marking every frame — only through "se:" inside a sequence)
+	extsIn := []string{"-", "c0", "c1", "x2", "x1", "x3"}
 	for i := 0; i < n; i++ {
 		sd := sides[r.intn(2)]
 		raw := []int{8, 16, 20, 33, 64, 130, 140, 300, 1000}[r.intn(9)]
@@ -351,7 +368,7 @@ func genC06(tier string, r *rng) {
 				if r.intn(4) == 0 {
 					seq = append(seq, "nf")
 				} else {
-					seq = append(seq, "se:"+exts[r.intn(4)])
+					seq = append(seq, "se:"+extsIn[r.intn(len(extsIn))])
 				}
 			case 13:
 				switch r.intn(4) {
